@@ -55,7 +55,8 @@ ASSUMPTIONS = [
     "task needs to finish after its cancellation; no direct cancellation of the simulation task or of the task that runs "
     "edzed.run() while the clean-up is in progress (DESIGN.md section 6)",
     "a slow cancellation of init_async that takes time (not only loop iterations) is generated only where init_async does "
-    "not run into its time-out; the main task of a block with stop_timeout=0 does not fail; the destination OutputFunc of an OutputFunc's on_success has no on_success of its own",
+    "not run into its time-out; in random circuits a stop_async ending with its own CancelledError is the only asynchronous "
+    "clean-up of the circuit; the main task of a block with stop_timeout=0 does not fail; the destination OutputFunc of an OutputFunc's on_success has no on_success of its own",
     "OutputAsync blocks receive only their stop_data (mode 'wait'); C12 covers their running behaviour",
 ]
 EXHAUSTIVE = {'quick': False, 'thorough': False}
@@ -1113,6 +1114,15 @@ def oracle_run(scn, r):
         # the clean-up was cut short by the known finding: what else is wrong in this run (blocks not stopped ->
         # their timers, stop_data, stop_async tasks) is its consequence
         return own
+    if own_cancel:
+        # a stop_async of this run did end with its own CancelledError: `_run_tasks("stop")` was left there; which
+        # of the other stop_async tasks were cancelled, awaited or left behind depends on the order of the set
+        consequence = ('stop_async_awaited_bounded', 'no_live_task_when_finished', 'no_live_task_at_end',
+                       'no_pending_timer', 'stop_data_last', 'cleanup_error_isolated')
+        for v in out:
+            if v['clause'] in consequence and not (v['clause'] == 'cleanup_error_isolated'
+                                                   and not set(started) - set(stops) <= sync_started):
+                v['sig'] = {**(v.get('sig') or {}), 'shape': 'stop_async_own_cancellederror'}
     return out
 
 
@@ -1471,6 +1481,12 @@ def random_scenario(rng):
             fl += 'P'
         b['flags'] = fl
         blocks.append(b)
+    if sum(1 for b in blocks if is_async_stop(b) or b['kind'] == 'outa') > 1:
+        # random circuits: a stop_async with its own CancelledError (known finding) only where it is the only
+        # asynchronous clean-up -- which of the OTHER stop_async tasks get cancelled depends on the order of the set
+        # (the fixed scenarios of new_dimension_scenarios cover two of them, both time-out orders)
+        for b in blocks:
+            b['flags'] = b['flags'].replace('K', '')
     timers = [i for i, b in enumerate(blocks) if b['kind'] == 'timer']
     outfs = [i for i, b in enumerate(blocks) if b['kind'] == 'outf']
     chain_targets = set()
